@@ -328,6 +328,7 @@ def run(ctx):
     choicelib.run_stateful(ctx, 40 if ctx.tier == 'quick' else 600)
     choicelib.run_scaling(ctx, 25 if ctx.tier == 'quick' else 400)
     choicelib.run_rounded_totals(ctx)
+    choicelib.run_key_lengths(ctx, 17 if ctx.tier == 'quick' else 22)      # ids of every length reach the digest whole
     choicelib.run_numeric_twin_sequences(ctx)
     choicelib.run_ulp_boundaries(ctx)
     double_faults(ctx)
